@@ -141,11 +141,16 @@ Viol == UNION {ViolRet(obs.rets[i]) : i \in 1..Len(obs.rets)}
         \cup UNION {ViolSib(obs.sibs[i]) : i \in 1..Len(obs.sibs)}
         \cup {V("has_return", "1", "ret", "none") : x \in {1} \cap (IF obs.rets = <<>> THEN {1} ELSE {})}
 
+\* what the model predicts under the listed deviations: the types it drops (first call)
+Pred == IF first = None \/ first.result # "doc" \/ Dangling THEN {}
+        ELSE {V("complete", cur.types[f], "1", "0") : f \in {f \in Reach : f \in DOMAIN cur.types /\ Count(first.doc, f) = 0}}
 TrDone == /\ IsEvent("done")
-          /\ \A v \in Viol : PrintT(<<"VIOL", ToJson(v)>>)
+          /\ \A v \in Viol \ Pred : PrintT(<<"VIOL", ToJson(v)>>)
+          /\ \A v \in Viol \cap Pred : PrintT(<<"KNOWN", ToJson(v @@ [devs |-> Dev \cap {"D28", "D28b"}])>>)
+          /\ \A v \in Pred \ Viol : PrintT(<<"STALE", ToJson(v)>>)
           /\ (~conf) => PrintT(<<"DRIFT", ToJson([id |-> cur.id, at |-> l])>>)
           /\ TLCSet(1, TLCGet(1) + 1)
-          /\ TLCSet(2, TLCGet(2) + Cardinality(Viol))
+          /\ TLCSet(2, TLCGet(2) + Cardinality(Viol \ Pred))
           /\ TLCSet(3, TLCGet(3) + (IF conf THEN 0 ELSE 1))
           /\ Keep /\ UNCHANGED <<cur, pend, obs>>
 
